@@ -54,7 +54,12 @@ InvalidFor(class) ==
     [] class \in {"rpm_relation_depends", "rpm_relation_provides", "rpm_relation_recommends", "rpm_relation_replaces",
                  "rpm_relation_suggests", "rpm_relation_conflicts"} -> {"rpm"}    \* rpm knows <, <=, =, >=, > only
     [] class = "platform" -> {"apk", "archlinux"} [] class \in {"arch_name", "arch_name_hyphen", "arch_name_dot", "arch_name_dashes"} -> {"archlinux"}   \* may not start with hyphen or dot [] class = "missing_name" -> AllFmts
-    [] class = "wrong_passphrase" -> {"deb", "rpm", "apk"} [] OTHER -> {}
+    [] class = "wrong_passphrase" -> {"deb", "rpm", "apk"}
+    \* a hand-built Info (no defaults): a package needs a name and a version, and deb/rpm/apk an architecture - the general
+    \* one or the packager's OWN (another packager's architecture is not this package's)
+    [] class \in {"handbuilt_no_arch", "handbuilt_arch_of_other"} -> {"deb", "rpm", "apk"}
+    [] class \in {"handbuilt_no_version", "handbuilt_no_name"} -> AllFmts
+    [] OTHER -> {}
 
 TraceInvalid ==
   /\ IsEv("invalid")
@@ -66,7 +71,7 @@ TraceInvalid ==
   /\ UNCHANGED <<cid, ncases>>
 
 (* Cli.tla: one run of the binary = the composition of the machine's steps; only the terminal state is observable *)
-IsDirKind(k) == k \in {"dir", "dir_slash", "symlink_dir"}
+IsDirKind(k) == k \in {"dir", "dir_slash", "dir_dotted", "symlink_dir"}
 CanInfer(f, k) == (k \in {"file", "devfull", "existing_larger"} /\ f # "archlinux") \/ k = "file_other_ext"
 Signs(f) == f \in {"deb", "rpm", "apk"}
 ExpectFail(a) == (a.fault # "none" /\ ~(a.fault = "missing_key" /\ ~Signs(a.built))) \/ (~a.with_p /\ ~CanInfer(a.fmt, a.target_kind))
